@@ -39,7 +39,8 @@ Assumptions (trusted base):
     `Err.invalidPath` exactly for the message "Invalid file path" (another message is another value: `noCentral`).
   * `ZipStreamReader::visit` is `streamOps`: `visit_file` for the local entries in order (an entry that cannot be
     opened ends the visit with its error), then at least one central record, `visit_additional_metadata` for each in
-    order.  That shape is what `Tie/Visit.lean` (`tie_visit`) proves about the translated `visit` for every visitor;
+    order; when it fails, the visitor is as the last callback that returned `Ok` left it (a callback that fails has
+    not touched it: `rs2lean` checks that its writes follow its last `?`, `Basic/RsX.lean`).  That shape is what `Tie/Visit.lean` (`tie_visit`) proves about the translated `visit` for every visitor;
     the entry drain between rounds acts on the stream only.
   * the `Drop` of an entry handle does not touch the filesystem.
 Hypotheses: `HandlesOk` / `MetasOk` - the name of every handle is a Rust `String` (UTF-8 of some `n`) shorter than
@@ -609,25 +610,37 @@ abbrev Extractor := Gen.ZipStreamReader.extract.Extractor KPath
 
 /-- `visit_file` for the local entries, in stream order; an entry that cannot be opened ends the visit -/
 def filesLoop {V : Type} (vf : V → Gen.ZipFile → Rs.X FS Err (Unit × V × Gen.ZipFile)) :
-    List (Except SrcErr Gen.ZipFile) → V → Rs.X FS Err V
-  | [], v => pure v
-  | .error e :: _, _ => Rs.X.throw (.src e)
-  | .ok f :: r, v => vf v f >>= fun x => filesLoop vf r x.2.1
+    List (Except SrcErr Gen.ZipFile) → V → Rs.X.K FS Err V
+  | [], v => fun w => (w, v, .ok ())
+  | .error e :: _, v => fun w => (w, v, .err (.src e))
+  | .ok f :: r, v => fun w =>
+    match vf v f w with
+    | (w1, .ok x) => filesLoop vf r x.2.1 w1
+    | (w1, .err e) => (w1, v, .err e)
+    | (w1, .panic) => (w1, v, .panic)
 
 /-- `visit_additional_metadata` for the central records, in order -/
 def metasLoop {V : Type} (vm : V → Gen.ZipStreamFileMetadata → Rs.X FS Err (Unit × V)) :
-    List Gen.ZipStreamFileMetadata → V → Rs.X FS Err V
-  | [], v => pure v
-  | m :: r, v => vm v m >>= fun x => metasLoop vm r x.2
+    List Gen.ZipStreamFileMetadata → V → Rs.X.K FS Err V
+  | [], v => fun w => (w, v, .ok ())
+  | m :: r, v => fun w =>
+    match vm v m w with
+    | (w1, .ok x) => metasLoop vm r x.2 w1
+    | (w1, .err e) => (w1, v, .err e)
+    | (w1, .panic) => (w1, v, .panic)
 
 /-- `ZipStreamReader::visit` as far as the extractor sees it (its shape is the subject of `Tie/Visit.lean`,
-`tie_visit`): the file rounds, then - at least one - central record, each shown to the visitor once -/
+`tie_visit`): the file rounds, then - at least one - central record, each shown to the visitor once; together with
+the visitor as the last complete callback left it -/
 def streamOps {V : Type} (files : List (Except SrcErr Gen.ZipFile)) (metas : List Gen.ZipStreamFileMetadata) :
     Rs.StreamOps FS Gen.ZipFile Gen.ZipStreamFileMetadata Err V where
-  visit vf vm v := filesLoop vf files v >>= fun v1 =>
-    match metas with
-    | [] => Rs.X.throw .noCentral
-    | _ => metasLoop vm metas v1 >>= fun v2 => pure ((), v2)
+  visit vf vm v := fun w =>
+    match filesLoop vf files v w with
+    | (w1, v1, .ok ()) =>
+      (match metas with
+       | [] => (w1, v1, .err .noCentral)
+       | _ => metasLoop vm metas v1 w1)
+    | r => r
 
 def nameOfM (m : Gen.ZipStreamFileMetadata) : Name := (utf8Strict m._0.file_name).getD []
 
@@ -706,7 +719,7 @@ theorem visit_meta_eq (c : Cfg) (content) (root : Path) (l) (m : Gen.ZipStreamFi
 
 theorem files_eq (c : Cfg) (content) (root : Path) : ∀ (files : List (Except SrcErr Gen.ZipFile)), HandlesOk files → ∀ l fs,
     filesLoop (@Gen.ZipStreamReader.extract.Extractor.visit_file pathOps _ _ _ _ _ (fsOps c content) errOps) files ⟨dirOf root, l⟩ fs
-      = stepRes (placeFiles c false root (files.map (viewOf content)) fs) (⟨dirOf root, l⟩ : Extractor) := by
+      = stepResK (placeFiles c false root (files.map (viewOf content)) fs) (⟨dirOf root, l⟩ : Extractor) := by
   intro files
   induction files with
   | nil => intro _ l fs; rfl
@@ -715,7 +728,7 @@ theorem files_eq (c : Cfg) (content) (root : Path) : ∀ (files : List (Except S
     rcases h with e | f
     · rfl
     · obtain ⟨n, hname, hn⟩ := hok f (List.mem_cons_self ..)
-      simp only [filesLoop, bind_apply, visit_file_eq c content root l f n hname hn, List.map_cons, placeFiles]
+      simp only [filesLoop, visit_file_eq c content root l f n hname hn, List.map_cons, placeFiles]
       rcases placeFile c false root (viewOf content (Except.ok f)) fs with ⟨fs1, _ | er⟩
       · simp only [stepRes]
         exact ih (fun f hf => hok f (List.mem_cons_of_mem _ hf)) l fs1
@@ -729,23 +742,40 @@ def pendAllM (root : Path) : List Gen.ZipStreamFileMetadata → List (UInt64 × 
 theorem metas_eq (c : Cfg) (content) (root : Path) : ∀ (metas : List Gen.ZipStreamFileMetadata), MetasOk metas → ∀ l fs,
     metasLoop (@Gen.ZipStreamReader.extract.Extractor.visit_additional_metadata pathOps _ _ _ _ _ (fsOps c content) errOps)
         metas ⟨dirOf root, l⟩ fs
-      = match checkMetas (metas.map metaView) with
-        | some e => (fs, .err e)
-        | none => (fs, .ok (⟨dirOf root, l ++ pendAllM root metas⟩ : Extractor)) := by
+      = (fs, (⟨dirOf root, l ++ pendAllM root (metas.take (checkedCount (metas.map metaView)))⟩ : Extractor),
+          match checkMetas (metas.map metaView) with
+          | some e => .err e
+          | none => .ok ()) := by
   intro metas
   induction metas with
-  | nil => intro _ l fs; simp [metasLoop, checkMetas, pendAllM, pure_apply]
+  | nil => intro _ l fs; simp [metasLoop, checkMetas, checkedCount, pendAllM]
   | cons m r ih =>
     intro hok l fs
     obtain ⟨n, hname, hn⟩ := hok m (List.mem_cons_self ..)
     have hnm := nameOfM_eq hname
-    simp only [metasLoop, bind_apply, visit_meta_eq c content root l m n hname hn, List.map_cons, checkMetas, metaView, hnm]
+    simp only [metasLoop, visit_meta_eq c content root l m n hname hn, List.map_cons, checkMetas, checkedCount, metaView, hnm]
     cases hen : enclosedName n with
-    | none => rfl
+    | none => simp [pendAllM]
     | some k =>
       simp only []
       rw [ih (fun m hm => hok m (List.mem_cons_of_mem _ hm))]
-      simp only [pendAllM, hnm, List.append_assoc]
+      simp only [List.take_succ_cons, pendAllM, hnm, List.append_assoc]
+
+/-- when no central record is rejected, all are accepted -/
+theorem checkedCount_all : ∀ {ms : List (Name × Option Nat)}, checkMetas ms = none → checkedCount ms = ms.length := by
+  intro ms
+  induction ms with
+  | nil => intro _; rfl
+  | cons m r ih =>
+    intro h
+    simp only [checkMetas] at h
+    simp only [checkedCount, List.length_cons]
+    split at h
+    · cases h
+    · next p hp => rw [ih h]
+
+theorem metasOk_take {ms : List Gen.ZipStreamFileMetadata} (h : MetasOk ms) (n : Nat) : MetasOk (ms.take n) :=
+  fun m hm => h m (List.mem_of_mem_take hm)
 
 theorem pendAllM_eq (root : Path) : ∀ metas : List Gen.ZipStreamFileMetadata, MetasOk metas →
     pendAllM root metas = (pendingOf (metas.map metaView)).map (enc root) ∧ PendOk (pendingOf (metas.map metaView)) := by
@@ -779,22 +809,30 @@ theorem pendAllM_eq (root : Path) : ∀ metas : List Gen.ZipStreamFileMetadata, 
 entries the stream delivers (`files`, with what `io::copy` receives from each: `content`) and every sequence of
 central records (`metas`): the entries are placed in stream order WITHOUT the `exists` test (`placeFiles … false`),
 the central records are checked (`enclosed_name` or the error) and their modes collected with `path_depth` of the
-name, and after the visit the modes are applied by `apply_unix_modes` (`modeOrder`, `applyModes`). -/
+name, and after the visit - also a visit that failed: then for the central records before the rejected one, the
+outcome ignored - the modes are applied by `apply_unix_modes` (`modeOrder`, `applyModes`). -/
 theorem tie_extract_stream (c : Cfg) (content : Gen.ZipFile → Bytes × Option SrcErr) (root : Path)
     (files : List (Except SrcErr Gen.ZipFile)) (metas : List Gen.ZipStreamFileMetadata)
     (hok : HandlesOk files) (hmok : MetasOk metas) (fs : FS) :
     @Gen.ZipStreamReader.extract pathOps _ _ _ _ _ (fsOps c content) errOps (streamOps files metas) (dirOf root) fs
       = ofModel (extractStream c root (files.map (viewOf content)) (metas.map metaView) fs) := by
   unfold Gen.ZipStreamReader.extract extractStream
-  simp only [streamOps, bind_apply]
+  have hnil : ∀ fs1, @Gen.apply_unix_modes pathOps _ _ _ _ Err (fsOps c content) errOps [] fs1 = (fs1, .ok ()) := by
+    intro fs1
+    have := tie_apply_unix_modes c content root [] (fun p hp => by cases hp) fs1
+    simpa [sortModes, applyModes, ofModel] using this
+  simp only [streamOps, bind_apply, Rs.X.keep]
   rw [files_eq c content root files hok [] fs]
   rcases placeFiles c false root (files.map (viewOf content)) fs with ⟨fs1, _ | e⟩
-  · simp only [stepRes]
+  · simp only [stepResK]
     rcases metas with _ | ⟨m, r⟩
-    · rfl
-    · simp only [bind_apply, metas_eq c content root (m :: r) hmok [] fs1]
+    · simp only [Rs.X.attempt, hnil]
+      rfl
+    · simp only [metas_eq c content root (m :: r) hmok [] fs1, List.nil_append]
       rcases hcm : checkMetas ((m :: r).map metaView) with _ | e
-      · simp only [pure_apply, io_apply, List.nil_append, List.map_cons]
+      · have hcnt : checkedCount ((m :: r).map metaView) = (m :: r).length := by
+          rw [checkedCount_all hcm, List.length_map]
+        simp only [hcnt, List.take_length, Rs.X.attempt]
         have ⟨h1, h2⟩ := pendAllM_eq root (m :: r) hmok
         rw [h1, tie_apply_unix_modes c content root _ h2 fs1]
         simp only [List.map_cons] at hcm
@@ -802,9 +840,15 @@ theorem tie_extract_stream (c : Cfg) (content : Gen.ZipFile → Bytes × Option 
         unfold modeOrder
         generalize applyModes c root _ fs1 = res
         rcases res with ⟨fs2, _ | e⟩ <;> rfl
-      · simp only [List.map_cons] at hcm
+      · simp only [Rs.X.attempt]
+        have ⟨h1, h2⟩ := pendAllM_eq root _ (metasOk_take hmok (checkedCount ((m :: r).map metaView)))
+        rw [h1, tie_apply_unix_modes c content root _ h2 fs1, List.map_take]
+        simp only [List.map_cons] at hcm
         simp only [List.map_cons, hcm]
-        rfl
-  · rfl
+        unfold modeOrder
+        generalize applyModes c root _ fs1 = res
+        rcases res with ⟨fs2, _ | e2⟩ <;> rfl
+  · simp only [stepResK, Rs.X.attempt, hnil]
+    rfl
 
 end ZipVerif.Tie.Extract
